@@ -615,6 +615,8 @@ func init() {
 		checkEvaluatorPipeline(r, prog, a, "c18")
 		checkForwarding(r, prog, a, "c18")
 		checkGetOpts(r, prog, a, "c18") // the default tag name is `bexpr`
+		r.importing = "C17"
+		checkFilter(r, prog, a, "c17") // "identical Filter selections": an element is kept or dropped by its Evaluate verdict alone, never by whether it can be found again under its key
 		r.importing = ""
 		r.Technique = "who-may-call census over everything reachable from Evaluate/Execute (forbidden: struct-field reflection, whole-value comparison, interface equality on datum values), with a living positive-control package; single-gateway census of calls into pointerstructure; gateway Config provenance and tag-name pipeline imported from C05/C18; kind-table row for Struct"
 		r.Explain = "Decides: no module code reachable from Evaluate or Execute can observe a struct field except through pointerstructure.Pointer.Get: zero calls to reflect's Field*/NumField/FieldBy*/VisibleFields/IsZero/Equal/DeepEqual/Comparable and no ==/!= between empty-interface operands (the same rule flags every forbidden construct of a positive-control package on every run); the only entries into pointerstructure are Pointer.Get, Pointer.String and Parse; both Get sites carry the evaluator's tag name and hook (C05 gateway rule), the tag name travels creation → Evaluator → every Evaluate → every sub-evaluation (C18 pipeline and forwarding); structs are never operands (no comparator, no is-empty/in/quantifier arm for Struct — C09's kind obligations make those error branches). NOT decided: pointerstructure.getStruct's own handling of '-', unexported and renamed fields (read: skips PkgPath != \"\", honours '-', matches a tagged field only by its tag)."
